@@ -362,7 +362,8 @@ def main_check(check_id, tier, seed, jobs=None, replay=None, inline=False, only=
         cover.update(check.extra(m) or {})
         ev = {'property_id': check.ID, 'tier': tier, 'seed': int(seed), 'level': check.LEVEL, 'coverage': cover,
               'assumptions': list(check.ASSUMPTIONS), 'wall_s': round(wall, 2), 'violations': int(nviol)}
-        write_evidence(check.ID, ev)
+        if not os.environ.get('HXMON_NO_EVIDENCE'):
+            write_evidence(check.ID, ev)
     for line in out:
         print(line)
     if status == 'INCONCLUSIVE':
